@@ -1,19 +1,18 @@
 import ScriggoV.Spec.JSON
 import ScriggoV.Model.ShowValue
-/-! Specification side of C08: the *data* a Go value stands for when it is serialised the way
-encoding/json documents it (field names from `json` tags, `-`, `omitempty`, the `string`
-option, `[]byte` as base64, nil as `null`, map keys sorted), as a function `GoVal → Data`
+/-! Specification side of C08: the *data* a Go value stands for, as a function `GoVal → Data`
 written without looking at Scriggo's loops. Core Lean only.
 
-`abs cfg m v`: `cfg.stringOpt` — honour the `,string` tag option; `cfg.nilBytesNull` — a nil
-`[]byte` is `null`. `absStd = abs ⟨true, true⟩` is encoding/json's data; `absScriggo = abs ⟨false,
-false⟩` is what Scriggo's output decodes to (the two known differences, DESIGN §8 row 32). -/
+`abs std m v`. With `std = true` it is what encoding/json documents (field names from `json`
+tags, `-`, `omitempty`, `omitzero`, the `string` option, promotion of the fields of embedded
+structs, every slice of uint8-kind elements as base64, nil as `null`, map keys sorted,
+`time.Time` as RFC 3339 with nanoseconds): `absStd`. With `std = false` it is what Scriggo's
+output decodes to: `absScriggo`, which differs in exactly these clauses — `string` and `omitzero`
+ignored, embedded structs as ordinary members named after their type, only `[]byte` itself as
+base64 and a nil one as `""`, RFC 3339 without the fraction (known_findings.json). Map keys:
+`keySpec` (String() for Stringers, decimal integers, …). -/
 namespace ScriggoV.ShowValue
 open ScriggoV ScriggoV.JSON ScriggoV.Gen.ShowJS
-
-structure AbsCfg where
-  stringOpt : Bool
-  nilBytesNull : Bool
 
 /-- `strings.Split(s, ",")` -/
 def splitComma : Bytes → List Bytes
@@ -25,6 +24,7 @@ def splitComma : Bytes → List Bytes
       | [] => [[c]]
 
 def stringLit : Bytes := [0x73, 0x74, 0x72, 0x69, 0x6E, 0x67]
+def omitzeroLit : Bytes := [0x6F, 0x6D, 0x69, 0x74, 0x7A, 0x65, 0x72, 0x6F]
 
 /-- a `json:"…"` tag value: name before the first comma, then the options -/
 def specTag (tag : Bytes) : Bytes × List Bytes :=
@@ -41,6 +41,7 @@ def isEmptySpec : GoVal → Bool
   | .float _ _ z _ => z
   | .str s => s.isEmpty
   | .bytes _ b => b.isEmpty
+  | .nbytes _ b => b.isEmpty
   | .slice _ es => es.isEmpty
   | .array es => es.isEmpty
   | .map _ ks _ => ks.isEmpty
@@ -50,18 +51,55 @@ def isEmptySpec : GoVal → Bool
   | .err _ inner => isEmptySpec inner
   | _ => false
 
+mutual
+/-- `reflect.Value.IsZero` as far as a description tells (what encoding/json's `omitzero` asks;
+for a `time.Time` its own `IsZero` method: January 1, year 1, 00:00:00 UTC) -/
+def isZeroSpec : GoVal → Bool
+  | .nil => true
+  | .bool b => !b
+  | .int _ i => i == 0
+  | .uint _ n => n == 0
+  | .float _ _ z _ => z
+  | .str s => s.isEmpty
+  | .bytes n _ => n
+  | .nbytes n _ => n
+  | .slice n _ => n
+  | .map n _ _ => n
+  | .ptr _ n _ => n
+  | .iface .nil => true
+  | .time t => t.year == 1 && t.month == 1 && t.day == 1 && t.hour == 0 && t.min == 0 && t.sec == 0
+      && t.nsec == 0 && t.offset == 0
+  | .array es => isZeroSpecL es
+  | .struct _ vs => isZeroSpecL vs
+  | .verb _ _ inner => isZeroSpec inner
+  | .err _ inner => isZeroSpec inner
+  | _ => false
+def isZeroSpecL : List GoVal → Bool
+  | [] => true
+  | v :: vs => isZeroSpec v && isZeroSpecL vs
+end
+
 /-- is the field serialised, and under which name (`none`: left out) -/
-def fieldName (f : Field) (v : GoVal) : Option Bytes :=
+def fieldName (std : Bool) (f : Field) (v : GoVal) : Option Bytes :=
   if !f.exported then none
   else if f.tag.isEmpty then some f.name
   else if f.tag == [0x2D] then none
   else
     let (name, opts) := specTag f.tag
     if opts.contains omitemptyLit && isEmptySpec v then none
+    else if std && opts.contains omitzeroLit && isZeroSpec v then none
     else some (if name.isEmpty then f.name else name)
 
-def hasStringOpt (f : Field) : Bool :=
-  !f.tag.isEmpty && f.tag != [0x2D] && (specTag f.tag).2.contains stringLit
+def tagOpts (f : Field) : List Bytes :=
+  if f.tag.isEmpty || f.tag == [0x2D] then [] else (specTag f.tag).2
+
+def hasStringOpt (f : Field) : Bool := (tagOpts f).contains stringLit
+def hasOmitzeroOpt (f : Field) : Bool := (tagOpts f).contains omitzeroLit
+
+/-- encoding/json promotes the fields of an embedded struct (or pointer to struct) whose tag
+gives no name -/
+def promoted (f : Field) : Bool :=
+  f.embedded && (f.tag.isEmpty || (f.tag != [0x2D] && (specTag f.tag).1.isEmpty))
 
 /-- the `string` option: a bool / integer / float field is encoded as a JSON string holding
 its literal (strings, which encoding/json double-encodes, and pointers to scalars are left alone
@@ -75,44 +113,98 @@ def quoteScalar (v : GoVal) (d : Data) : Data :=
   | .float _ _ _ _, .num t => .str t
   | _, d => d
 
+/-- what a map key is spelled as: `String()` of a Stringer, the decimal digits of an integer,
+`true`/`false`, the 'f' digits of a float, the string itself -/
+def keySpec : GoKey → Bytes
+  | .stringer s => s
+  | .envStringer s => s
+  | .bool b => if b then kwTrue else kwFalse
+  | .int _ i => fmtInt i
+  | .uint _ n => natDigits n
+  | .float _ d => d
+  | .str s => s
+  | .complex _ t => t
+  | .other _ => []
+
+/-- the argument of `new Date(…)`: ECMA-262 date-time string format with milliseconds, expanded
+year outside 0..9999, `Z` for the zone named UTC, else `±HH:mm` of the offset in whole minutes -/
+def ecmaDate (t : TimeRec) : Bytes :=
+  let y : Bytes :=
+    if t.year < 0 then 0x2D :: minDigits 6 t.year.natAbs
+    else if t.year > 9999 then 0x2B :: minDigits 6 t.year.natAbs
+    else minDigits 4 t.year.natAbs
+  let zone := Int.tdiv t.offset 60
+  let tz : Bytes :=
+    if t.utc then [0x5A]
+    else (if zone < 0 then 0x2D else 0x2B) :: (minDigits 2 (zone.natAbs / 60) ++ [0x3A] ++ minDigits 2 (zone.natAbs % 60))
+  y ++ [0x2D] ++ minDigits 2 t.month ++ [0x2D] ++ minDigits 2 t.day ++ [0x54]
+    ++ minDigits 2 t.hour ++ [0x3A] ++ minDigits 2 t.min ++ [0x3A] ++ minDigits 2 t.sec
+    ++ [0x2E] ++ minDigits 3 (t.nsec / 1000000) ++ tz
+
+/-- drop trailing `0`s -/
+def trimZeros (l : Bytes) : Bytes := (l.reverse.dropWhile (· == 0x30)).reverse
+
+/-- `time.RFC3339Nano` (what `Time.MarshalJSON` uses): the fraction only when there is one -/
+def fmtRFC3339Nano (t : TimeRec) : Bytes :=
+  if t.nsec == 0 then fmtRFC3339 t
+  else
+    let base := fmtRFC3339 { t with offset := 0 }     -- …ssZ
+    let tz := (fmtRFC3339 t).drop (base.length - 1)
+    base.take (base.length - 1) ++ 0x2E :: trimZeros (padDigits 9 t.nsec) ++ tz
+
 mutual
-def abs (cfg : AbsCfg) (m : Mode) : GoVal → Data
+def abs (std : Bool) (m : Mode) : GoVal → Data
   | .nil => .null
   | .verb js json inner =>
     match (if m.isJS then js else json) with
     | some raw => (parseTop m.isJS raw).getD .null
-    | none => abs cfg m inner
-  | .time js json => if m.isJS then .date js else .str json
+    | none => abs std m inner
+  | .time t => if m.isJS then .date (ecmaDate t) else .str (if std then fmtRFC3339Nano t else fmtRFC3339 t)
   | .err msg _ => .str msg
-  | .iface v => abs cfg m v
+  | .iface v => abs std m v
   | .bool b => .bool b
   | .int _ i => .num (fmtInt i)
   | .uint _ n => .num (natDigits n)
   | .float _ _ _ digits => .num digits
   | .str s => .str s
-  | .bytes isNil b => if cfg.nilBytesNull && isNil then .null else .str (base64 b)
-  | .slice isNil es => if isNil then .null else .arr (absList cfg m es)
-  | .array es => .arr (absList cfg m es)
-  | .ptr _ isNil e => if isNil then .null else abs cfg m e
-  | .struct fs vs => .obj (absFields cfg m fs vs)
-  | .map isNil ks vs => if isNil then .null else .obj (sortByKey (ks.zip (absList cfg m vs)))
+  | .bytes isNil b => if std && isNil then .null else .str (base64 b)
+  | .nbytes isNil b =>
+    if isNil then .null
+    else if std then .str (base64 b)
+    else .arr (b.map (fun c => .num (natDigits c.toNat)))
+  | .slice isNil es => if isNil then .null else .arr (absList std m es)
+  | .array es => .arr (absList std m es)
+  | .ptr _ isNil e => if isNil then .null else abs std m e
+  | .struct fs vs => .obj (absFields std m fs vs)
+  | .map isNil ks vs =>
+    if isNil then .null else .obj (sortByKey ((ks.map keySpec).zip (absList std m vs)))
   | .other _ _ => if m.isJS then .undefined else .null
-def absList (cfg : AbsCfg) (m : Mode) : List GoVal → List Data
+def absList (std : Bool) (m : Mode) : List GoVal → List Data
   | [] => []
-  | v :: vs => abs cfg m v :: absList cfg m vs
-def absFields (cfg : AbsCfg) (m : Mode) : List Field → List GoVal → List (Bytes × Data)
+  | v :: vs => abs std m v :: absList std m vs
+def absFields (std : Bool) (m : Mode) : List Field → List GoVal → List (Bytes × Data)
   | f :: fs, v :: vs =>
-    match fieldName f v with
-    | none => absFields cfg m fs vs
-    | some name =>
-      (name, if cfg.stringOpt && hasStringOpt f then quoteScalar v (abs cfg m v) else abs cfg m v)
-        :: absFields cfg m fs vs
+    let rest := absFields std m fs vs
+    let regular :=
+      match fieldName std f v with
+      | none => rest
+      | some name =>
+        (name, if std && hasStringOpt f then quoteScalar v (abs std m v) else abs std m v) :: rest
+    if std && promoted f then
+      -- the fields of the embedded struct take the place of the field; a nil embedded pointer
+      -- contributes nothing (name conflicts between promoted fields: not modelled)
+      match v with
+      | .struct ifs ivs => absFields std m ifs ivs ++ rest
+      | .ptr _ false (.struct ifs ivs) => absFields std m ifs ivs ++ rest
+      | .ptr _ true _ => rest
+      | _ => regular
+    else regular
   | _, _ => []
 end
 
 /-- the data encoding/json defines -/
-def absStd : Mode → GoVal → Data := abs ⟨true, true⟩
+def absStd : Mode → GoVal → Data := abs true
 /-- the data Scriggo's output stands for -/
-def absScriggo : Mode → GoVal → Data := abs ⟨false, false⟩
+def absScriggo : Mode → GoVal → Data := abs false
 
 end ScriggoV.ShowValue
